@@ -692,7 +692,7 @@ static void for_rand_scripts (int r, int dev, void (*fn) (void *), void *arg)
 			for (j = 0; j < RANDMAX_SCRIPT; j++) g_rand_script[j] = -1;
 			g_rand_script[i] = a; g_rand_nscript = i + 1;
 			fn (arg);
-			if (dev >= 2)
+			if (dev >= 2 && r <= 5)	/* two deviations only where the product stays small */
 				for (j = i + 1; j < r && j < RANDMAX_SCRIPT; j++)
 					for (b = 0; b < r; b++) {
 						if (b == j) continue;
